@@ -309,7 +309,8 @@ def _child_main(fn, chunk, out_path, per_chunk_timeout):
 
 
 def run_pool(fn, items: list, *, workers: int, chunk_size: int, per_chunk_timeout: int,
-             deadline: float | None = None, scratch_tag: str = "pool", on_result=None) -> tuple[list, list]:
+             deadline: float | None = None, scratch_tag: str = "pool", on_result=None,
+             solo=None) -> tuple[list, list]:
     """Run fn(item) for every item in forked children.
 
     Returns (results, problems).  Children are forked from this process so all
@@ -321,7 +322,12 @@ def run_pool(fn, items: list, *, workers: int, chunk_size: int, per_chunk_timeou
     if scratch.exists():
         shutil.rmtree(scratch, ignore_errors=True)
     scratch.mkdir(parents=True)
-    chunks = [items[i : i + chunk_size] for i in range(0, len(items), chunk_size)]
+    if solo is not None:
+        singles = [[it] for it in items if solo(it)]
+        rest = [it for it in items if not solo(it)]
+        chunks = singles + [rest[i : i + chunk_size] for i in range(0, len(rest), chunk_size)]
+    else:
+        chunks = [items[i : i + chunk_size] for i in range(0, len(items), chunk_size)]
     pending = list(enumerate(chunks))
     pending.reverse()
     running: dict[int, tuple[int, float, str]] = {}
@@ -358,6 +364,8 @@ def run_pool(fn, items: list, *, workers: int, chunk_size: int, per_chunk_timeou
             if pid not in running:
                 continue
             idx, t0, out = running.pop(pid)
+            if os.environ.get("VERIF_DEBUG"):
+                print(f"chunk {idx} size={len(chunks[idx])} took {real_monotonic() - t0:.1f}s", file=sys.stderr)
             if os.path.exists(out):
                 with open(out) as f:
                     rs = json.load(f)
